@@ -1589,6 +1589,21 @@ def v_assign_value(tree, env, lw):
     return v_eval(tree, env, W, tree.s) & ((1 << lw) - 1)
 
 
+def array_key_fixed():
+    """True once the finding C01-array-key-unmasked is listed `fixed` in known_findings.json (or with
+    C01_ARRAY_KEY_FIXED=1, to try the repaired simulator before it is listed): the generators then also index Arrays
+    with negative / signed keys (`Evaluator._array_index` selects like the lowered Case)."""
+    import os, json
+    if os.environ.get("C01_ARRAY_KEY_FIXED") == "1":
+        return True
+    try:
+        k = json.load(open(os.path.join(os.path.dirname(os.path.dirname(os.path.abspath(__file__))), "known_findings.json")))
+        ks = k if isinstance(k, list) else k.get("findings", [])
+        return any(e.get("id") == "C01-array-key-unmasked" and e.get("status") == "fixed" for e in ks)
+    except Exception:
+        return False
+
+
 class SafeGen:
     """Expressions on which Migen's unbounded and Verilog's context-width arithmetic provably coincide (no
     overflow-capable operator below a self-determined boundary, every operand exact in its width, signed
@@ -1654,9 +1669,21 @@ class SafeGen:
         return Constant(r.randrange(0, 1 << r.randint(1, 4)))
 
     def array_key(self):
-        """Unsigned key of 1-3 bits (may exceed the array length: both sides then take the last element)."""
+        """Key of an Array with 2-5 choices: an unsigned slice of 1-3 bits (may exceed the array length: both sides
+        then take the last element) or - since the fix of C01-array-key-unmasked - a key whose simulator value is
+        negative: `~x` of a 3-bit slice, a signed signal of >= 4 bits (at least as wide as the lowered Case items, so
+        that the text compares the same bit pattern the simulator reduces the key to)."""
         r = self.rng
         s = r.choice(self.u)
+        if array_key_fixed() and r.random() < 0.4:
+            wide = [x for x in self.u if x.nbits >= 3]
+            sg = [x for x in self.s if x.nbits >= 4]
+            if sg and r.random() < 0.5:
+                return r.choice(sg)
+            if wide:
+                x = r.choice(wide)
+                lo = r.randrange(0, x.nbits - 2)
+                return _Operator("~", [_Slice(x, lo, lo + 3)])
         return _Slice(s, 0, r.randint(1, min(s.nbits, 3)))
 
     def sconst(self):
